@@ -7,13 +7,22 @@
    Number / marshaler output) is compared with encoding/json by the harness;
    the float32 guard is a translator fact. *)
 From Coq Require Import NArith List Bool Arith.
-From GJ Require Import Spec.Json Gen.VmShape Model.Enc Proofs.EncP.
+From GJ Require Import Spec.Json Gen.VmShape Model.Enc Proofs.EncP Proofs.ParseP Proofs.LeafP.
 Import ListNotations.
 Open Scope N_scope.
 
 Theorem C03_output_is_text_of_grammar_tokens : forall v, marshal v = render_compact (toks v).
 Proof. exact marshal_is_compact_of_tokens. Qed.
 Print Assumptions C03_output_is_text_of_grammar_tokens.
+
+(* ... and that text is one RFC 8259 JSON text: the strict recogniser of Spec/Json.v accepts it, with nothing left
+   over, and reads exactly the token sequence of the value -- for every value whose leaves are well formed
+   (strings: bodies the recogniser reads back, e.g. everything AppendString writes, Proofs/LeafP.v; numbers: the
+   JSON number grammar, e.g. everything AppendInt / AppendUint write; floats come from strconv) *)
+Theorem C03_output_is_one_rfc8259_text : forall v, wfp (strip v) = true ->
+  rfc_json (marshal v) = true /\ parse_json (marshal v) = Some (toks v, []).
+Proof. intros v H. split; [exact (marshal_is_rfc_json v H)|exact (parse_marshal v H)]. Qed.
+Print Assumptions C03_output_is_one_rfc8259_text.
 
 (* the token sequence of a value whose leaves are scalars is bracket-balanced: every prefix has at least as many
    openers as closers and the whole sequence returns to the starting depth *)
